@@ -8,6 +8,7 @@ twin executes that same turn on the copy with reflection off; a second twin runs
 from __future__ import annotations
 
 import copy
+import dataclasses
 import json
 import os
 from typing import Any, Dict, List, Optional
@@ -75,7 +76,8 @@ def generate(seed: int, tier: str) -> Dict[str, Any]:
                     "allow": ro.chance(0.75), "plan_flag": ro.chance(0.8), "dry_run": ro.chance(0.15),
                     "cost_ms": ro.choice([0, 0, 1, 49, 50, 51, 7000]),
                     "fault": ro.weighted([(None, 6), ("reflect", 1), ("index_add", 1), ("index_missing", 1), ("telemetry", 1), ("fixture_missing", 2), ("fixture_gone", 1), ("fixture_torn", 1)]),
-                    "exc": ro.choice(sorted(EXC_TYPES)), "completion": ro.choice(COMPLETIONS), "prior_read": ro.chance(0.5)})
+                    "exc": ro.choice(sorted(EXC_TYPES)), "completion": ro.choice(COMPLETIONS), "prior_read": ro.chance(0.5),
+                    "overproduce": ro.choice([0, 0, 0, 2, 3, 7])})
     if backend == "llm" and ro.chance(0.5):
         # the same prompt twice (same agent, turn id and text): answered once, then the record vanishes from the file at the same path
         src = dict(ro.choice(ops))
@@ -178,7 +180,19 @@ def _run(program: Dict[str, Any], clock: SimClock, stats: Optional[Dict[str, int
                     raise EXC_TYPES[cur["exc"]]()
                 if str((((cfg_root.get("t3") or {}).get("reflection")) or {}).get("backend", "")) == "llm":
                     write_fixture_file(bundle, cfg_root, embedder)
-                return real_reflect(bundle, cfg_root, embedder=embedder)
+                res = real_reflect(bundle, cfg_root, embedder=embedder)
+                k = int(cur.get("overproduce") or 0)
+                if k:
+                    # a reflect stage (the orchestrator lets one be plugged in) that does not cap itself: the writer's own
+                    # cap is then the one that has to hold
+                    limit = int(((cfg_root.get("t3") or {}).get("reflection") or {}).get("summary_tokens", 128))
+                    base = dict(res.memory_entries[0]) if res.memory_entries else {
+                        "owner": str(getattr(bundle.ctx, "agent_id", "a")), "ts": getattr(bundle.ctx, "now_iso", None) or getattr(bundle.ctx, "now", None),
+                        "text": " ".join((res.summary or "extra").split()[:max(0, limit)]), "tags": ["reflection"], "kind": "summary"}
+                    res = dataclasses.replace(res, memory_entries=[dict(base) for _ in range(k)])
+                    if stats is not None:
+                        stats["overproducing_reflect"] = stats.get("overproducing_reflect", 0) + 1
+                return res
 
             def log_wrapper(*a, **k):
                 if cur.get("fault") == "telemetry":
@@ -196,7 +210,7 @@ def _run(program: Dict[str, Any], clock: SimClock, stats: Optional[Dict[str, int
                     pre = copy.deepcopy(st) if do_twin else None
                     cur.clear()
                     cur.update({"cost_ms": op.get("cost_ms", 0), "fault": op.get("fault"), "exc": op.get("exc", "ValueError"), "completion": op.get("completion", "x"),
-                                "prior_read": bool(op.get("prior_read"))})
+                                "prior_read": bool(op.get("prior_read")), "overproduce": op.get("overproduce", 0)})
                     idx = st["memory_index"]
                     if op.get("fault") == "index_add":
                         def boom(ep, _e=op.get("exc", "ValueError")):
